@@ -8,7 +8,7 @@ BUDGET = {"quick": 45, "thorough": 780}
 RULE = ("worlds with heterogeneous voltages, all battery models, noise tapes, scripted schedules addressing vacant "
         "stations, 20% StochasticNetwork worlds; non-trivial = >=1 period with a non-zero rate strictly below the pilot "
         "(battery-limited) and >=1 non-zero pilot sent to a vacant station; distinct = per-period history signature")
-PROBES = ["negative_rate_period", "battery_limited", "vacant_pilot", "resume_json", "stochastic_world", "noisy_battery", "party_charged_its_ev_copies", "second_life", "duplicate_plugin_event_refused"]
+PROBES = ["library_generated_sessions", "negative_rate_period", "battery_limited", "vacant_pilot", "resume_json", "stochastic_world", "noisy_battery", "party_charged_its_ev_copies", "second_life", "duplicate_plugin_event_refused"]
 FAULT_DIMENSION = "scheduler crash + rerun / JSON round trip; adversarial noise tape; a scheduler that 'charges' the EV copies it was handed (look-ahead)"
 ASSUMPTIONS = ["station voltages are taken from the scenario, not from the network object",
                "battery charge is read from the battery object's stored charge attribute (observation only)"]
@@ -21,7 +21,78 @@ P_STOCH = world.profile(net="stochastic", stations=(1, 4), faults={"crash": 0.3}
                         heterovolt=0.8)
 
 
+def gen_generated(rs):
+    """Sessions that come out of the library's own stochastic generator (seeded sample override), clipped values and repeated
+    rows included, simulated as they are (the library's EV and Battery objects, one station per session) under uncontrolled
+    charging; the ledger is judged per session after the run."""
+    r = world.sub(rs, "generated")
+    n = r.randint(2, 10)
+    period = r.choice([5, 5, 15, 60, 7.5])
+    dmin = 2.5 * period / 60.0        # (a stay of at least two whole periods: departure > arrival, as C02's simulations assume)
+    rows = [[round(r.uniform(0, 20), 3), round(max(dmin, r.choice([r.uniform(0.5, 4), r.uniform(4, 12), 8.0])), 3), round(r.choice([r.uniform(1, 30), 30.0, 9.0]), 3)]
+            for _ in range(n)]
+    if r.random() < 0.6:
+        rows[r.randrange(n)] = list(rows[r.randrange(n)])      # two drivers with the very same sample (clipping, a replayed day)
+    return {"seed": rs, "generated": {"rows": rows, "period": period, "voltage": r.choice([208, 240]), "max_power": r.choice([6.656, 7.68, 3.3]),
+                                      "fit": r.random() < 0.6, "max_len": r.choice([None, None, 6]), "force_feasible": r.random() < 0.5}}
+
+
+def check_generated(sc):
+    import datetime as dt
+    from acnportal.acnsim.events import stochastic_events as se
+    from acnportal.acnsim.models.battery import batt_cap_fn
+    from ..engine import Outcome
+    from ..rng import digest
+    g = sc["generated"]
+    out = Outcome()
+    out.probe("library_generated_sessions")
+
+    class Seeded(se.StochasticEvents):
+        def sample(self_, n):
+            return sut.np.array(g["rows"][:n], dtype=float)
+    bp = {"type": sut.Linear2StageBattery, "capacity_fn": batt_cap_fn} if g["fit"] else None
+    try:
+        q = Seeded().generate_events([len(g["rows"])], g["period"], g["voltage"], g["max_power"], max_len=g["max_len"],
+                                     battery_params=bp, force_feasible=g["force_feasible"])
+    except ValueError as x:
+        if "No feasible battery size" in str(x):
+            out.inconclusive += 1
+            out.digest = "unfittable"
+            return out
+        raise
+    evs = [e.ev for _, e in q.queue]
+    nw = sut.ChargingNetwork()
+    for ev in evs:
+        nw.register_evse(sut.EVSE(ev.station_id, max_rate=32), g["voltage"], 0)
+    init = {ev.session_id: float(ev._battery._current_charge) for ev in evs}
+    sim = sut.Simulator(nw, sut.UncontrolledCharging(), q, dt.datetime(2021, 3, 1), period=g["period"], verbose=False)
+    sim.run()
+    dtp = g["period"] / 60.0
+    ids = list(nw.station_ids)
+    log = []
+    for ev in evs:
+        if ev.departure <= ev.arrival:
+            continue
+        i = ids.index(ev.station_id)
+        rec = float(sim.charging_rates[i, :sim.iteration].sum()) * g["voltage"] / 1000.0 * dtp
+        gain = float(ev._battery._current_charge) - init[ev.session_id]
+        log.append((ev.session_id, repr(rec)))
+        if not close(float(ev.energy_delivered), rec, n=sim.iteration + 1, rel=1e-8):
+            out.add("C02/session_energy_total", "generated session %s reports %r kWh, its station's recorded rates integrate to %r" % (ev.session_id, ev.energy_delivered, rec))
+            break
+        if not close(gain, rec, n=sim.iteration + 1, rel=1e-8):
+            out.add("C02/battery_charge_step", "generated session %s: battery gained %r kWh, recorded rates integrate to %r (two sessions sharing one "
+                    "battery object?)" % (ev.session_id, gain, rec))
+            break
+    out.periods = int(sim.iteration)
+    out.digest = digest(log)
+    out.sig = digest((len(evs), g["fit"], g["period"]))
+    return out
+
+
 def gen(rs, tier):
+    if rs % 23 == 0:
+        return gen_generated(rs)
     sc = world.gen_world(rs, P_STOCH if rs % 5 == 0 else P_CUSTOM)
     r = world.sub(rs, "dupplug")
     if sc["network"]["kind"] == "custom" and r.random() < 0.06:
@@ -37,6 +108,8 @@ def gen(rs, tier):
 
 
 def check(sc):
+    if "generated" in sc:
+        return check_generated(sc)
     tr = driver.run_world(sc, observe=0)
     out = base_outcome(tr)
     ok = completion(tr, out, "C02", required=False)
